@@ -492,7 +492,7 @@ impl ExecBuilder {
                         // ---------- C05 / C07: associated methods ---------------------------
                         if self.wants("C05") || self.wants("C07") {
                             for me in env.associated(&path) {
-                                if me.name.starts_with('_') {
+                                if me.name.starts_with('_') && me.kind == MKind::Own {
                                     continue;
                                 }
                                 let is_own = me.kind == MKind::Own;
